@@ -129,7 +129,9 @@ func c17Ops(c *h.Ctx) []c17Op {
 		resp2[i], _ = type2.NewBasicPublicIssuer(key2).Evaluate(s2.Request())
 	}
 	t3seed := detBytes("t3", 0, 32)
-	mk3 := func() any { return &t3Shared{newT3(c, 0, t3seed, map[string][]byte{"origin.example": detBytes("ik", 0, 48)})} }
+	mk3 := func() any {
+		return &t3Shared{newT3(c, 0, t3seed, map[string][]byte{"origin.example": detBytes("ik", 0, 48)})}
+	}
 	env0 := mk3().(*t3Shared).env
 	var req3 [nPrep][]byte
 	for i := 0; i < nPrep; i++ {
@@ -206,7 +208,10 @@ func c17Ops(c *h.Ctx) []c17Op {
 			e := s.(*t3Shared).env
 			return cat(e.issuer.TokenKeyID(), e.issuer.NameKey().Marshal())
 		}},
-		{"type3.Evaluate", mk3, func(s any, i int) []byte { _, _, err := s.(*t3Shared).env.issuer.Evaluate(req3[k(i)]); return okErr(err) }},
+		{"type3.Evaluate", mk3, func(s any, i int) []byte {
+			_, _, err := s.(*t3Shared).env.issuer.Evaluate(req3[k(i)])
+			return okErr(err)
+		}},
 		{"batched.EvaluateBatch", mkBatch, func(s any, i int) []byte {
 			b := s.(*batchShared)
 			br, err := batched.NewBasicClient().CreateTokenRequest([]tokens.TokenRequestWithDetails{req1[k(i)], req2[k(i)], req1[k(i+1)]})
@@ -242,7 +247,9 @@ func c17Ops(c *h.Ctx) []c17Op {
 			return []byte("ok")
 		}},
 		{"ecdsa.Verify", mkEC, func(s any, i int) []byte { return flagB(ecdsa.Verify(&s.(*ecShared).sk.PublicKey, ecDigest, ecR, ecS)) }},
-		{"ecdsa.VerifyASN1", mkEC, func(s any, i int) []byte { return flagB(ecdsa.VerifyASN1(&s.(*ecShared).sk.PublicKey, ecDigest, ecSigA)) }},
+		{"ecdsa.VerifyASN1", mkEC, func(s any, i int) []byte {
+			return flagB(ecdsa.VerifyASN1(&s.(*ecShared).sk.PublicKey, ecDigest, ecSigA))
+		}},
 		{"ecdsa.BlindPublicKeyWithContext", mkEC, func(s any, i int) []byte {
 			e := s.(*ecShared)
 			p, err := ecdsa.BlindPublicKeyWithContext(curve, &e.sk.PublicKey, e.bk, []byte("ctx"))
